@@ -170,10 +170,15 @@ func (c *typedConstraint[E]) ProcessPostCommit(state *boltz.EntityChangeState[E]
 type ifaceListener[E boltz.Entity] struct {
 	store, typ string
 	rec        *Recorder
+	style      string
 }
 
 func (l *ifaceListener[E]) HandleEntityEvent(entity E) {
-	l.rec.Add(Event{Store: l.store, Style: "event-listener", Type: l.typ, ID: safeID(entity), Info: entInfo(entity)})
+	style := l.style
+	if style == "" {
+		style = "event-listener"
+	}
+	l.rec.Add(Event{Store: l.store, Style: style, Type: l.typ, ID: safeID(entity), Info: entInfo(entity)})
 }
 
 // safeID tolerates a nil entity handed to a listener (recorded as such, so the comparison fails instead of the process)
@@ -208,12 +213,27 @@ func installOn[E boltz.Entity](name string, st *boltz.BaseStore[E], rec *Recorde
 		}, et.t)
 		st.AddEntityEventListener(&ifaceListener[E]{store: name, typ: et.name, rec: rec}, et.t)
 	}
+	// one registration call naming all three change types (the callback cannot tell which one fired: Type "?")
+	all := []boltz.EntityEventType{boltz.EntityCreated, boltz.EntityUpdated, boltz.EntityDeleted}
+	st.AddListener(func(e boltz.Entity) {
+		rec.Add(Event{Store: name, Style: "listener-multi", Type: "?", ID: safeID(e), Info: entInfo(e)})
+	}, all[0], all[1:]...)
+	st.AddEntityIdListener(func(id string) {
+		rec.Add(Event{Store: name, Style: "id-listener-multi", Type: "?", ID: id})
+	}, all[0], all[1:]...)
+	st.AddEntityEventListenerF(func(e E) {
+		rec.Add(Event{Store: name, Style: "event-listener-f-multi", Type: "?", ID: safeID(e), Info: entInfo(e)})
+	}, all[0], all[1:]...)
+	st.AddEntityEventListener(&ifaceListener[E]{store: name, typ: "?", rec: rec, style: "event-listener-multi"}, all[0], all[1:]...)
 	st.AddEntityConstraint(&typedConstraint[E]{store: name, rec: rec})
 	st.AddUntypedEntityConstraint(&recConstraint{store: name, rec: rec, veto: veto})
 }
 
 // ListenerStyles lists the registration styles installed by InstallRecorders (each for all three change types).
 var ListenerStyles = []string{"listener", "id-listener", "event-listener-f", "event-listener", "typed-constraint", "untyped-constraint"}
+
+// MultiStyles are the registrations made with one call naming all three change types; their events carry Type "?".
+var MultiStyles = []string{"listener-multi", "id-listener-multi", "event-listener-f-multi", "event-listener-multi"}
 
 // InstallRecorders registers a listener of every style for every change type on every store of the world,
 // plus a tx-complete listener on the database.
